@@ -198,7 +198,14 @@ def rule_c(ctx):
             ctx.ob("plain-writes-event|%s" % ty, bool(vo) and all(x[0] == "arg" for x in vo), "a plain sink connection writes the event itself", [w])
 
 
+def rule_d(ctx):
+    """events of one output reach a sink in sending order"""
+    from . import c02, bcast
+    c02.rule_b(ctx)
+    bcast.fanout_rules(ctx, "output")
+
 RULES = [
+    ("C17.d", "port sends are awaited in place; fan-out visits each connection once per send", rule_d),
     ("C17.a", "EventBuffer: open guard, evict oldest iff full, append, read from front", rule_a),
     ("C17.b", "EventSlot: open guard, overwrite, take; open/close flags", rule_b),
     ("C17.c", "sink senders write once, synchronously", rule_c),
